@@ -342,20 +342,20 @@ EN_ERRORS = {'ref': '#REF!', 'name': '#NAME?', 'value': '#VALUE!', 'div': '#DIV/
 _FN_TABLE = {}
 
 
-def _function_names(eng):
-    """field of language::Functions -> English function name.  The names come from the real table (the native
-    replay binary runs harness h_probe_function_names, which prints Function::to_localized_name for every function
-    of the `en` language); the field <-> variant pairing is read from the arms of Function::to_localized_name in
-    the current source."""
+def _language_tables(eng):
+    """code -> {'meta': {name, code}, 'booleans': {...}, 'errors': {...}, 'functions': {field: name}} for every language the
+    engine ships.  The strings come from the real tables (the native replay binary runs harness
+    h_probe_function_names, which prints them); the field <-> variant pairing of the function table is read from the arms
+    of Function::to_localized_name in the current source."""
     import os, re, json, subprocess, tempfile
     out = os.environ.get('MIRSYM_OUT')
     if not out:
-        raise Unsupported('function-name table: no build directory')
+        raise Unsupported('language tables: no build directory')
     if out in _FN_TABLE:
         return _FN_TABLE[out]
-    cache = os.path.join(out, 'fn_names.json')
+    cache = os.path.join(out, 'languages.json')
     if os.path.exists(cache):
-        names = json.load(open(cache))
+        raw = json.load(open(cache))
     else:
         fd, path = tempfile.mkstemp(prefix='icverif-cases-', dir='/var/tmp')
         try:
@@ -364,60 +364,65 @@ def _function_names(eng):
             p = subprocess.run([os.path.join(out, 'verif_replay_dev'), path], stdout=subprocess.PIPE, stderr=subprocess.DEVNULL, timeout=120)
         finally:
             os.unlink(path)
-        names = {}
+        raw = {}
         for line in p.stdout.decode('utf-8', 'replace').splitlines():
             m = re.match(r'obs fn str ([0-9a-f]+)\s*$', line)
             if m:
-                k, _, v = bytes.fromhex(m.group(1)).decode('utf-8').partition('=')
-                names[k] = v
-        if len(names) < 100:
-            raise Unsupported('function-name table: the native probe printed %d names' % len(names))
+                code, section, kv = bytes.fromhex(m.group(1)).decode('utf-8').split('|', 2)
+                k, _, v = kv.partition('=')
+                raw.setdefault(code, {}).setdefault(section, {})[k] = v
+        if 'en' not in raw or len(raw['en'].get('functions', {})) < 100:
+            raise Unsupported('language tables: the native probe printed no English function table')
         tmp = cache + '.%d.tmp' % os.getpid()
-        json.dump(names, open(tmp, 'w'))
+        json.dump(raw, open(tmp, 'w'))
         os.replace(tmp, cache)
     src = open(os.path.join(out, 'src', 'src', 'functions', 'mod.rs')).read()
     i = src.index('fn to_localized_name')
     j = src.index('\n    }\n', i)
     pairs = re.findall(r'Function::(\w+)\s*=>\s*functions\.(?:r#)?(\w+)\.clone\(\)', src[i:j])
-    table = {}
-    for variant, field in pairs:
-        if variant not in names:
-            raise Unsupported('function-name table: no name for ' + variant)
-        table[field] = names[variant]
-    _FN_TABLE[out] = table
-    return table
+    tables = {}
+    for code, t in raw.items():
+        names = t.get('functions', {})
+        fields = {}
+        for variant, field in pairs:
+            if variant not in names:
+                raise Unsupported('language tables: no %s name for %s' % (code, variant))
+            fields[field] = names[variant]
+        tables[code] = {'meta': t['meta'], 'booleans': t['booleans'], 'errors': t['errors'], 'functions': fields}
+    _FN_TABLE[out] = tables
+    return tables
 
 
-def _functions_en(eng):
+def _language(eng, code):
+    """the Language value of `code`, every string taken from the real table (see _language_tables)"""
     from .mcore import mkstr
-    fd = eng.td.lookup('language::Functions')
-    if fd is None:
-        return Opaque('language.functions')
-    table = _function_names(eng)
-    missing = [f for f in fd.fields if f not in table]
-    if missing:
-        raise Unsupported('language::Functions has fields without a name: %s' % missing[:5])
-    return Agg([mkstr(table[f]) for f in fd.fields], fd.path)
-
-
-def _language_en(eng):
-    """the `en` Language: code, boolean and error names concrete (harness h_probe_language_en prints the native
-    values and the per-path validation compares them on every run), the function-name table opaque"""
-    from .mcore import mkstr
+    tables = _language_tables(eng)
+    if code not in tables:
+        raise Unsupported('language %r is not in the engine\'s tables' % code)
+    t = tables[code]
     ld = eng.td.lookup('language::Language')
     bd = eng.td.lookup('language::Booleans')
     ed = eng.td.lookup('language::Errors')
-    if ld is None or bd is None or ed is None or sorted(bd.fields) != sorted(EN_BOOLEANS) or sorted(ed.fields) != sorted(EN_ERRORS):
-        raise Unsupported('language::{Language,Booleans,Errors} have fields this intercept does not know')
-    vals = {'name': mkstr('English'), 'code': mkstr('en'),
-            'booleans': Agg([mkstr(EN_BOOLEANS[f]) for f in bd.fields], bd.path),
-            'errors': Agg([mkstr(EN_ERRORS[f]) for f in ed.fields], ed.path),
-            'functions': _functions_en(eng)}
+    fd = eng.td.lookup('language::Functions')
+    if ld is None or bd is None or ed is None or fd is None:
+        raise Unsupported('language::{Language,Booleans,Errors,Functions} not found')
+    if sorted(bd.fields) != sorted(t['booleans']) or sorted(ed.fields) != sorted(t['errors']):
+        raise Unsupported('language::{Booleans,Errors} have fields the probe does not print')
+    missing = [f for f in fd.fields if f not in t['functions']]
+    if missing:
+        raise Unsupported('language::Functions has fields without a name: %s' % missing[:5])
+    vals = {'name': mkstr(t['meta']['name']), 'code': mkstr(t['meta']['code']),
+            'booleans': Agg([mkstr(t['booleans'][f]) for f in bd.fields], bd.path),
+            'errors': Agg([mkstr(t['errors'][f]) for f in ed.fields], ed.path),
+            'functions': Agg([mkstr(t['functions'][f]) for f in fd.fields], fd.path)}
     if sorted(ld.fields) != sorted(vals):
         raise Unsupported('language::Language has fields this intercept does not know')
-    eng.assumptions.add('Language "en": code/booleans/errors concrete (validated natively by h_probe_language_en); function names read from the '
-                        'real table through the native probe h_probe_function_names')
+    eng.assumptions.add('Language values: every string read from the engine\'s own tables through the native probe h_probe_function_names')
     return Agg([vals[f] for f in ld.fields], ld.path)
+
+
+def _language_en(eng):
+    return _language(eng, 'en')
 
 
 @rt('language_en')
